@@ -85,6 +85,15 @@ const CB: Command = Command::Velocity(-1.0);
 /// 0 nothing, 1 state A new, 2 state B new, 3 cmd A new, 4 cmd B new, 5 state A + cmd A new,
 /// 6 state A with the previous state's timestamp, 7 state B with an older timestamp
 const NPART: usize = 8;
+/// error of a failing inner update in round k: Other(2) in even rounds, the crate's own FromNone in
+/// odd ones (the inner getter's error alternates the other way round, see env::err_at)
+fn upd_error(k: usize) -> Error<E> {
+    if k % 2 == 0 {
+        E2
+    } else {
+        Error::FromNone
+    }
+}
 fn part_show(p: usize) -> &'static str {
     ["-", "sA@new", "sB@new", "cA@new", "cB@new", "sA+cA@new", "sA@same", "sB@old"][p]
 }
@@ -166,7 +175,7 @@ fn run_case(kind: usize, seq: &[usize], e: &mut Eng) -> u64 {
                     let (part, f) = (s % NPART, s / NPART);
                     apply_partner(&x, part, round_time(k), &mut last_state_t);
                     st.borrow_mut().accept = f % 2 == 0;
-                    st.borrow_mut().update_result = if f / 2 == 0 { Ok(()) } else { Err(E2) };
+                    st.borrow_mut().update_result = if f / 2 == 0 { Ok(()) } else { Err(upd_error(k)) };
                     let seen = combined(w.get_terminal());
                     let seen2 = combined(w.get_terminal());
                     let (log0, upd0) = (st.borrow().log.len(), st.borrow().updates);
@@ -226,10 +235,10 @@ fn run_case(kind: usize, seq: &[usize], e: &mut Eng) -> u64 {
                         0 => Ok(Some(Datum::new(Time(now - 7), State::new_raw(0.1 + k as f32, -7.3, 1e3)))),
                         1 => Ok(Some(Datum::new(Time(-now), State::new_raw(-0.0, f32::MIN_POSITIVE, 3.0)))),
                         2 => Ok(None),
-                        _ => Err(E1),
+                        _ => Err(err_at(k)),
                     };
                     st.borrow_mut().next = inner.clone();
-                    st.borrow_mut().update_result = if f / 4 == 0 { Ok(()) } else { Err(E2) };
+                    st.borrow_mut().update_result = if f / 4 == 0 { Ok(()) } else { Err(upd_error(k)) };
                     let upd0 = st.borrow().updates;
                     let own0 = (own_state(w.get_terminal()), own_cmd(w.get_terminal()));
                     let xown0 = (own_state(&x), own_cmd(&x));
@@ -245,7 +254,7 @@ fn run_case(kind: usize, seq: &[usize], e: &mut Eng) -> u64 {
                     let upd_err = f / 4 != 0;
                     match (&inner, upd_err) {
                         (_, true) => {
-                            if res != Err(E2) {
+                            if res != Err(upd_error(k)) {
                                 return fail("result", "the inner update's error must be returned".into());
                             }
                         }
@@ -288,7 +297,7 @@ fn run_case(kind: usize, seq: &[usize], e: &mut Eng) -> u64 {
                     let (part, f) = (s % NPART, s / NPART);
                     apply_partner(&x, part, round_time(k), &mut last_state_t);
                     st.borrow_mut().accept = f % 2 == 0;
-                    st.borrow_mut().update_result = if f / 2 == 0 { Ok(()) } else { Err(E2) };
+                    st.borrow_mut().update_result = if f / 2 == 0 { Ok(()) } else { Err(upd_error(k)) };
                     let seen = combined(w.get_terminal());
                     let log0 = st.borrow().log.len();
                     let mut pid_err = None;
